@@ -350,3 +350,47 @@ def _s_marginal(S, inp, out):
 
 
 _single("definition", "MarginalRatio", _b_ign, _s_marginal)
+
+
+# ------------------------------------------------------------------ Pit / Quantile / Threshold means
+def _pit_metric():
+    from .metric_det import DualAgg
+
+    def setup(G):
+        return Bag(pit=G.array("pit", ("n",), kinds=(FIN,), min_size=1), agg=DualAgg(), rec={})
+
+    def call(inp):
+        data = ProbData(other={verif.field.Pit: inp.pit})
+        inp.rec["data"] = data
+        m = verif.metric.Pit()
+        m.aggregator = inp.agg
+        return m.compute_single(data, 0, verif.axis.Leadtime(), 1, None)
+
+    def post(S, inp, out):
+        req = inp.rec["data"].requests
+        return [("aggregate-of-the-verifying-pit-values-of-the-slice", S.same(out, inp.agg(inp.pit))),
+                ("requests-the-pit-field-of-the-same-slice", len(req) == 1 and req[0] == ([("Pit", None)], 0, verif.axis.Leadtime(), 1))]
+    return setup, call, post
+
+
+s, c, p = _pit_metric()
+register(Obligation("verif.metric.Pit.compute_single#POST:definition", ("C08",), s, c, p, modules=MOD))
+
+
+def _level_mean(cls_name, two):
+    def build(G, inp):
+        inp.lower = G.num("lower", kinds=(FIN,)) if True else None
+        inp.upper = G.num("upper", kinds=(FIN,)) if two else float("inf")
+
+    def spec(S, inp, out):
+        if two:
+            want = S.sum_where(inp.obs, lambda i: S.at(inp.b, i) - S.at(inp.a, i)) / S.to_num(S.count(inp.obs))
+        else:
+            want = S.sum_where(inp.obs, lambda i: S.at(inp.a, i)) / S.to_num(S.count(inp.obs))
+        return [("DEF:mean-of-the-forecast-%s(difference-of-the-two-levels-when-two-are-given)" % ("quantile" if cls_name == "Quantile" else "probability"), S.same(out, want))]
+    _single("definition[%s]" % ("two-levels" if two else "one-level"), cls_name, build, spec)
+
+
+for _cn in ("Quantile", "Threshold"):
+    _level_mean(_cn, False)
+    _level_mean(_cn, True)
